@@ -22,7 +22,7 @@ NewestId(m) == LET bx == CHOOSE x \in ToSet(Ev.s) : x.mb = m IN bx.msgs[Len(bx.m
 TraceInit == l = 1 /\ IInit
 TrReset == /\ Is("reset") /\ Ev.histlen = HistLen /\ Ev.cap = Cap
            /\ boxes' = [m \in Mailbox |-> <<>>] /\ stored' = <<>>
-           /\ mon' = [k \in Monitor |-> [joined |-> FALSE, filter |-> "", due |-> <<>>]]
+           /\ mon' = [k \in Monitor |-> [joined |-> FALSE, ver |-> "v2", filter |-> "", due |-> <<>>]]
            /\ pop' = [open |-> FALSE, mb |-> "", snap |-> <<>>, marked |-> {}]
            /\ SnapOK(boxes') /\ Mark
 TrDeliver == /\ Is("deliver") /\ Ev.code = 250
@@ -34,7 +34,7 @@ TrDelete == /\ Is("delete") /\ Ev.status = (IF Live(Ev.mb, Ev.id) THEN 200 ELSE 
 TrSeen == /\ Is("seen") /\ Ev.status = (IF Live(Ev.mb, Ev.id) THEN 200 ELSE 404)
           /\ MarkSeen(Ev.mb, Ev.id) /\ SnapOK(boxes') /\ Mark
 TrPurge == /\ Is("purge") /\ Ev.status = 200 /\ Purge(Ev.mb) /\ SnapOK(boxes') /\ Mark
-TrJoin == /\ Is("join") /\ Ev.r = "ok" /\ Join(Ev.mon, Ev.filter) /\ SnapOK(boxes) /\ Mark
+TrJoin == /\ Is("join") /\ Ev.r = "ok" /\ Join(Ev.mon, Ev.filter, Ev.ver) /\ SnapOK(boxes) /\ Mark
 TrDrain == /\ Is("drain") /\ Drained(Ev.mon, Ev.evs) /\ SnapOK(boxes) /\ Mark
 TrLeave == /\ Is("leave") /\ Leave(Ev.mon) /\ SnapOK(boxes) /\ Mark
 TrPopLogin == /\ Is("poplogin") /\ Ev.r = "+OK" /\ PopLogin(Ev.mb)
